@@ -37,7 +37,10 @@ var Table = map[string]Meta{
 	}},
 	"C04": one("C04", "exploration", false, 2400),
 	"C05": one("C05", "exploration", false, 2400),
-	"C06": one("C06", "exploration", false, 1500),
+	"C06": {ID: "C06", Level: "exploration", Parts: []Part{
+		{Name: "main", BQ: 1, BT: 1, Parallel: 1, HardS: 1500},
+		{Name: "readers", Race: true, BQ: 1, BT: 1, Parallel: 1, HardS: 900},
+	}},
 	"C07": {ID: "C07", Level: "fault_enumeration", HangIsViolation: true, Parts: []Part{
 		{Name: "main", BQ: 8, BT: 32, Parallel: 8, HardS: 900},
 	}},
